@@ -348,3 +348,86 @@ Proof.
   intro H. unfold connect_upstream_view. rewrite overlay_get.
   rewrite (raw_get_rev_none _ _ H). reflexivity.
 Qed.
+
+(* ------------------------------------------------------------------ *)
+(* the whole-list oracle (Check.spec_fold / lcase_prop_ok) is sound      *)
+
+Definition spec_upd (r : rule) (h acc : hmap) (k : str) : hmap :=
+  match spec_get r h k with Some vs => raw_set k vs acc | None => raw_del k acc end.
+
+Lemma spec_upd_same r h acc k : raw_get k (spec_upd r h acc k) = spec_get r h k.
+Proof.
+  unfold spec_upd. destruct (spec_get r h k); [apply raw_get_set_same | apply raw_get_del_same].
+Qed.
+
+Lemma spec_upd_other r h acc k x : x <> k -> raw_get x (spec_upd r h acc k) = raw_get x acc.
+Proof.
+  intro Hne. unfold spec_upd. destruct (spec_get r h k);
+    [apply raw_get_set_other | apply raw_get_del_other]; exact Hne.
+Qed.
+
+Lemma spec_fold_step_get r h ks : forall acc x,
+  raw_get x (fold_left (spec_upd r h) ks acc) =
+  if existsb (str_eqb x) ks then spec_get r h x else raw_get x acc.
+Proof.
+  induction ks as [|k ks IH]; intros acc x; cbn [fold_left existsb]; [reflexivity|].
+  rewrite IH. destruct (str_eqb x k) eqn:E; cbn [orb].
+  - apply str_eqb_eq in E. subst k.
+    destruct (existsb (str_eqb x) ks); [reflexivity | apply spec_upd_same].
+  - destruct (existsb (str_eqb x) ks); [reflexivity|].
+    apply spec_upd_other. apply str_eqb_neq. exact E.
+Qed.
+
+Lemma spec_outside_probe r h x :
+  ~ In x (probe_keys r h []) -> raw_get x h = None /\ spec_get r h x = None.
+Proof.
+  intro Hnin. unfold probe_keys in Hnin. simpl in Hnin. rewrite app_nil_r in Hnin.
+  assert (Hn : x <> r_name r) by (intro E; apply Hnin; left; congruence).
+  assert (Hc : x <> canon (r_name r)) by (intro E; apply Hnin; right; left; congruence).
+  assert (Hh : raw_get x h = None).
+  { apply raw_get_none_notin. intro Hi. apply Hnin. right. right. exact Hi. }
+  split; [exact Hh|]. unfold spec_get. apply str_eqb_neq in Hn, Hc. rewrite Hh.
+  destruct (r_act r); rewrite ?Hc, ?Hn; try reflexivity.
+  - destruct (fold_prefix x (r_name r)); reflexivity.
+  - destruct (raw_get (canon (r_name r)) h); [|reflexivity].
+    destruct (str_eqb (r_name r) (canon (r_name r))); reflexivity.
+Qed.
+
+Lemma spec_fold_one r h :
+  Spec r h (fold_left (spec_upd r h) (probe_keys r h []) h).
+Proof.
+  intro x. rewrite spec_fold_step_get.
+  destruct (existsb (str_eqb x) (probe_keys r h [])) eqn:E; [reflexivity|].
+  assert (Hnin : ~ In x (probe_keys r h [])).
+  { intro Hin. apply existsb_str_in in Hin. congruence. }
+  destruct (spec_outside_probe r h x Hnin) as [A C]. congruence.
+Qed.
+
+Lemma spec_fold_unfold r rest h :
+  spec_fold (r :: rest) h = spec_fold rest (fold_left (spec_upd r h) (probe_keys r h []) h).
+Proof. reflexivity. Qed.
+
+Lemma spec_fold_specs rs : forall h, Specs rs h (spec_fold rs h).
+Proof.
+  induction rs as [|r rs IH]; intro h.
+  - constructor. apply hequiv_refl.
+  - rewrite spec_fold_unfold. econstructor; [apply spec_fold_one | apply IH].
+Qed.
+
+Lemma Spec_equiv_r r h a c : hequiv a c -> Spec r h a -> Spec r h c.
+Proof. intros He Ha k. rewrite <- He. apply Ha. Qed.
+
+Lemma Specs_equiv_r rs : forall h a c, hequiv a c -> Specs rs h a -> Specs rs h c.
+Proof.
+  induction rs as [|r rs IH]; intros h a c He Ha; inversion Ha; subst.
+  - constructor. eapply hequiv_trans; eassumption.
+  - econstructor; [eassumption | eapply IH; eassumption].
+Qed.
+
+Lemma lcase_prop_ok_sound c : lcase_prop_ok c = true ->
+  Specs (l_rules c) (l_start c) (l_final_req c) /\ Specs (l_rules c) (l_start c) (l_final_resp c).
+Proof.
+  unfold lcase_prop_ok. intro H. apply andb_true_iff in H as [H1 H2].
+  apply hmap_eqb_equiv in H1, H2.
+  split; eapply Specs_equiv_r; try eassumption; apply spec_fold_specs.
+Qed.
